@@ -32,6 +32,10 @@ CHECKS = {
    text='Machine-checked (axiom-free): nat_eval/int_eval/real_eval (rational fragment) compute the standard value of every ground term that has one at their type; the guarded nat_eval/int_eval/real_eval macros accept only goals true under the type-directed meaning (truncated nat subtraction, x/0=0, exact rationals). Model acceptance is compared with one-step proofs through theory.check_proof (~650 goals incl. foreign-type and near-miss goals); every sequent produced by any level-0 arithmetic macro (also real_const_eq, int/real_const_ineq, real_compare, const_inequality, real_norm) is judged by the Coq semantics, by exact evaluation at rational points (real_norm) or by mpmath at 60 digits (irrational constants; exploration). One known finding: const_inequality on irrational constants uses floats.',
    note='Trusted: Coq kernel; model tie = acceptance correspondence; real exponents and transcendental functions are outside the Coq semantics; standard meaning defined only for constants at declared numeric instances.',
    design='7/C05'),
+ 'C16': dict(category='translation_validation', technique='per-verdict validation by Coq-verified certificate checkers (witness, Omega derivation) + Coq proofs of the Omega step lemmas + step-function correspondence; Z3 only proposes counter-witnesses that are re-checked',
+   text='Every verdict of omega.solve_matrix and Simplex on ~1000 systems per run (exhaustive tiny systems, random up to 5 variables / 8 rows / |coeff|<=4 with zero rows, duplicates, paired equalities) is validated: SAT by the verified witness checker, Omega UNSAT by replaying the returned Derivation through deriv_check (proved: accepted derivation => no integer solution), UNSAT also challenged by Z3-proposed models that are re-validated by the checker. Machine-checked (axiom-free): real-shadow soundness, gcd tightening, dark-shadow arithmetic core, deriv_check_sound, sat_ok_sound; combine_real/dark_factoid are compared with the model on random factoids. The search procedures themselves are not modelled.',
+   note='Trusted: Coq kernel; serialisation of verdicts/derivations; simplex UNSAT answers rest on Z3 failing to find a model (no Farkas certificate is extracted); exceptions are not verdicts; HOL wrappers not covered in this build.',
+   design='7/C16'),
 }
 m = {
  'version': 1,
